@@ -449,6 +449,29 @@ func locksMain(args []string) {
 		_, err := lb.propose(context.Background())
 		return errClass(err)
 	})
+	// C2. no valid tip at all: an overdraft vertex that claims a weight far above the window is admitted, moves the
+	// window and is dropped by the next proposal; every remaining tip is then below the window and proposal after
+	// proposal drops the ledger tip by tip. Each proposal has to return (an error), also the ones on the empty graph.
+	for _, claimed := range []uint64{500, 1900} {
+		claimed := claimed
+		r.fresh()
+		r.scenario("propose.notip", int(claimed), func(lb *lockBook) string {
+			tip, _ := lb.propose(context.Background())
+			t, _ := transaction.New("overdraft", spice.New(5_000_000, 0), nil, lb.b.Address(), &lb.a)
+			v, _ := accountant.NewVertex(t, tip.Hash, tip.Hash, claimed, &lb.b)
+			if err := lb.ab.AddLeaf(context.Background(), &v); err != nil {
+				return "addleaf:" + errClass(err)
+			}
+			last := "none"
+			for i := 0; i < lb.n+8; i++ {
+				_, err := lb.propose(context.Background())
+				last = errClass(err)
+			}
+			return "last:" + last
+		})
+		// the probes of that scenario ran on the emptied ledger; start the next one on a new book
+	}
+	r.fresh()
 	// D. DAG streaming to a slow consumer while writers keep proposing
 	rounds := 12
 	if thorough {
